@@ -189,7 +189,7 @@ func ZZ_C17_H3() {
 	query := zz.Bytes("query", zz.Range("lquery", 0, m))
 	hash := zz.Bytes("hash", zz.Range("lhash", 0, m))
 	for _, c := range host {
-		zz.Assume((c >= 'a' && c <= 'z') || (c >= '0' && c <= '9') || c == '.' || c == '-' || c == ':')
+		zz.Assume((c >= 'a' && c <= 'z') || (c >= 'A' && c <= 'Z') || (c >= '0' && c <= '9') || c == '.' || c == '-' || c == ':')
 	}
 	for _, c := range query {
 		zz.Assume(c >= 0x20 && c != 0x7f && c != '#')
@@ -290,4 +290,37 @@ func ZZ_C17_H5() {
 		first := want[0]
 		zz.Assert("peek-agrees", bytes.Equal(a.Peek(string(first.k)), first.v))
 	}
+}
+
+var zzPathAlpha = func() (t [256]bool) {
+	for _, c := range []byte("/%25a.") {
+		t[c] = true
+	}
+	return
+}()
+
+// ZZ_C17_H4P: the cookie path on its own, long enough for escapes of escapes: for every path
+// of <= PL bytes over {/ % 2 5 a .}, ParseBytes(AppendBytes(c)) returns the path the cookie
+// reports (the setter decodes and normalises once; the parser must not do it again), and the
+// string form is a fixed point.
+func ZZ_C17_H4P() {
+	pth := zz.Bytes("path", zz.Range("lpath", 0, zz.Param("PL", 5)))
+	for _, ch := range pth {
+		zz.Assume(zzPathAlpha[ch])
+	}
+	var c Cookie
+	c.SetKey("k")
+	c.SetValue("v")
+	c.SetPathBytes(pth)
+	s := append([]byte(nil), c.Cookie()...)
+	var d Cookie
+	err := d.ParseBytes(s)
+	zz.Cover("reached-assert", true)
+	zz.Cover("escape-survives-the-setter", bytes.IndexByte(c.Path(), '%') >= 0)
+	zz.Assert("parses", err == nil)
+	if err != nil {
+		return
+	}
+	zz.Assert("path", bytes.Equal(d.Path(), c.Path()))
+	zz.Assert("string-form-is-a-fixed-point", bytes.Equal(d.Cookie(), s))
 }
